@@ -337,6 +337,9 @@ def report_raise_sites(ctx, build):
         return
     t = json.load(open(path))
     ctx.stats['raise-sites'] = dict(t['by_disposition'], rows=t['rows'], lib_raise_sites=t['lib_raise_sites'], dead_raise_sites=t['dead_raise_sites'], asserts=t['asserts'])
+    for k in ('stale_whitelist', 'stale_overrides', 'revoked_dead'):
+        if t.get(k):
+            ctx.notes.append('gen_raisesites %s: %r' % (k, t[k]))
     for r in t['uncaught']:
         ctx.disagree('exception-flow', {'file': r['file'], 'line': r['line'], 'function': r['func'], 'callee': r['callee'], 'class': r['class'], 'raised_at': r['origin']},
                      'caught by an enclosing except clause, or reviewed', 'uncaught: ' + r['disp'][1])
